@@ -432,6 +432,13 @@ impl World {
     /// Default schedule: until nothing is ready, connections in slot order
     /// drain Queue, then Kill, Timeout, Ping.
     pub fn settle(&mut self) -> Result<(), MachineryError> {
+        self.settle_order(false)
+    }
+
+    /// `reverse`: among the event sources of one connection that are ready at the same
+    /// time the *last* in the default order is served first (Ping before Timeout before
+    /// Kill before Queue) - the other order the server's unbiased select! may take.
+    pub fn settle_order(&mut self, reverse: bool) -> Result<(), MachineryError> {
         for _round in 0..10_000 {
             let mut progressed = false;
             for i in 0..self.conns.len() {
@@ -440,7 +447,7 @@ impl World {
                 }
                 loop {
                     let r = self.ready_sources(i);
-                    if let Some(d) = r.first() {
+                    if let Some(d) = if reverse { r.last() } else { r.first() } {
                         self.run_directive(i, *d)?;
                         progressed = true;
                         if !self.conns[i].is_live() {
@@ -493,6 +500,12 @@ impl World {
     pub fn tick(&mut self) -> Result<(), MachineryError> {
         self.advance(1);
         self.settle()
+    }
+
+    /// One second passes; simultaneous events of a connection are served in the reverse order.
+    pub fn tick_reverse(&mut self) -> Result<(), MachineryError> {
+        self.advance(1);
+        self.settle_order(true)
     }
 
     /// Read everything currently readable on the client side of `i`.
